@@ -584,7 +584,20 @@ impl Meta {
     // ------------------------------------------------------------------ C13
     fn c13(&self, rng: &mut Rng, ctx: &mut Ctx) {
         let with_input = rng.chance(1, 2);
-        let p = gen_prog_in(rng, true, with_input);
+        let mut p = gen_prog_in(rng, true, with_input);
+        let mut has_list = false;
+        if rng.chance(1, 4) && p.lines.len() >= 3 {
+            // a LIST statement inside the program: while it lists, the program is in a state of its own
+            let cands: Vec<usize> = (0..p.lines.len()).filter(|i| !matches!(p.lines[*i].sts.first(), Some(gen::St::Data(..)) | Some(gen::St::Def(..)) | None)).collect();
+            if !cands.is_empty() {
+                let at = *rng.pick(&cands);
+                let a = rng.usize(p.lines.len());
+                let b = (a + rng.usize(4)).min(p.lines.len() - 1);
+                let (la, lb) = (p.lines[a].label, p.lines[b].label);
+                p.lines[at].sts.insert(0, gen::St::Cmd("LIST {}-{}", vec![la, lb]));
+                has_list = true;
+            }
+        }
         let lines = gen::render(&p);
         let replies = p.replies.clone();
         let text = if replies.is_empty() { lines.join("\n") } else { format!("{}\n--- INPUT replies ---\n{}", lines.join("\n"), replies.join("\n")) };
@@ -684,7 +697,8 @@ impl Meta {
             }
         }
         // (1c) STOP or END inserted at a statement boundary, continued with CONT
-        {
+        // (not for programs that list themselves: the inserted statement would show in the listing)
+        if !has_list {
             let mut q = p.clone();
             let cands: Vec<usize> = q
                 .lines
@@ -865,7 +879,7 @@ impl Meta {
             };
             let pr = s.rt.verif_probe();
             // (RuntimeError: an error has been raised but not reported yet -- a break in that window defers it to CONT)
-            if !matches!(pr.state, "Running" | "Input" | "InputRunning" | "InputRedo" | "Inkey" | "RuntimeError") {
+            if !matches!(pr.state, "Running" | "Input" | "InputRunning" | "InputRedo" | "Inkey" | "RuntimeError" | "Listing") {
                 continue;
             }
             if pr.pc >= pr.direct_address {
@@ -965,7 +979,16 @@ impl Meta {
         for _ in 0..n_edits {
             let before = s.listing_text();
             let mut non_editing = false;
-            let c: String = match rng.usize(15) {
+            let c: String = match rng.usize(18) {
+                // a line with a compile-time error, later perhaps replaced by a good one
+                15 => format!("{} PRINT )", if rng.coin() { *rng.pick(&nums1) } else { rng.range(0, 900) as u16 }),
+                // direct statements that are themselves in error
+                16 => {
+                    non_editing = true;
+                    rng.pick(&["RUM", "PRINT )", "GOTO", "NEXT Q9", "PRINT 1/0", "A$=5"]).to_string()
+                }
+                // the trace flag belongs to the session, not to the program
+                17 => rng.pick(&["TRON", "TRON", "TROFF"]).to_string(),
                 12 if rng.chance(1, 3) => "NEW".to_string(),
                 // a program line that edits the program when it runs, and a run in the middle of the history
                 12 => format!("{} DELETE {}", rng.pick(&nums1), rng.pick(&nums1)),
@@ -1053,8 +1076,12 @@ impl Meta {
         script.push(fin.clone());
         let text = script.join("\n");
         mon::journal(&text);
+        let tron_on = s.rt.verif_probe().tron;
         let (t_hist, st) = cmd0(&mut s, &fin);
         let mut f = typed_p(&p1, &listing);
+        if tron_on {
+            cmd(&mut f, "TRON");
+        }
         let (t_fresh, st2) = cmd0(&mut f, &fin);
         if st == Stop::Budget || st2 == Stop::Budget {
             ctx.count("discarded_budget");
